@@ -422,6 +422,10 @@ impl<T: Clone + Eq + Debug + Default> WrappedBlock<T> {
                 }
 
                 // Write any remaining whitespace
+                if self.width == 0 {
+                    // Nothing fits in a zero-width block; don't loop forever.
+                    self.wslen = 0;
+                }
                 while self.wslen > 0 {
                     let to_copy = self.wslen.min(self.width);
                     self.line.push_ws(to_copy, self.spacetag.as_ref().unwrap());
@@ -611,6 +615,15 @@ impl<T: Clone + Eq + Debug + Default> WrappedBlock<T> {
                             self.pre_wrapped = false;
                             // Hard new line, so back to main tag.
                             tag = main_tag;
+                        }
+                        '\t' if self.width == 0 => {
+                            // A tab needs at least one column, and a zero-width
+                            // block has none (the loop below would never end).
+                            if !self.allow_overflow {
+                                return Err(TooNarrow);
+                            }
+                            self.line.push_char(' ', tag);
+                            self.force_flush_line();
                         }
                         '\t' => {
                             let tab_stop = 8;
@@ -1109,7 +1122,8 @@ fn get_wrapping_or_insert<'w, D: TextDecorator>(
 ) -> &'w mut WrappedBlock<Vec<D::Annotation>> {
     wrapping.get_or_insert_with(|| {
         let wwidth = match options.wrap_width {
-            Some(ww) => ww.min(width),
+            // A maximum wrap width of 0 can't hold anything: treat it as 1.
+            Some(ww) => ww.max(1).min(width),
             None => width,
         };
         WrappedBlock::new(
